@@ -20,6 +20,7 @@ package main
 import (
 	"encoding/hex"
 	"fmt"
+	"os"
 	"runtime/debug"
 	"strings"
 	"time"
@@ -96,6 +97,10 @@ func hx(b []byte) string { return hex.EncodeToString(b) }
 var hdr = []string{"From Lib Require Import SymCrypto.", "From Model Require Import C18_Requests.", ""}
 
 func main() {
+	if len(os.Args) > 2 && os.Args[1] == "-worker" {
+		runWorker(os.Args[2])
+		return
+	}
 	debug.SetMemoryLimit(2 << 30)
 	c := vlib.Init("C18")
 	defer c.Finish()
@@ -131,6 +136,7 @@ func main() {
 		"field: key / type / payload / signature replaced, key and signature swapped between two valid envelopes, re-signing by another key, sealing for other domains, domain/type boundary shift, each record type sealed under the other's domain or type. " +
 		"garbage: empty, random bytes, every truncation, appended bytes / unknown fields. " +
 		"interleaved constructors: a private key whose Sign builds, seals and reads back ANOTHER request (ingest / register, same identity, same key type, other key type; fields of equal, shorter, longer encoded length; nested twice) before it signs - both requests must read back with their own fields; a short concurrent stress of constructors + readers (oracle only). " +
+		"fresh process: requests made here (own, foreign-signed, altered, cross-domain; ingest and register; all key types) are read by a NEW process of this binary BEFORE it has called any constructor, and again after it has: both verdicts must be this process's (the readers' verdict depends on the request, not on process history). " +
 		"read order: the same valid / foreign-signed / altered / cross-domain requests read in several orders and concurrently - every verdict equals the verdict in isolation. " +
 		"non-trivial = the presented bytes parse and carry a signature that some pool key really made (the verdict depends on who signed what)"
 	genConsts(c)
@@ -143,6 +149,7 @@ func main() {
 	genNested(c)
 	genReadOrder(c)
 	genStress(c)
+	genFreshProcess(c)
 }
 
 // ---------------------------------------------------------------------------
@@ -186,10 +193,16 @@ type presentation struct {
 	kind       string // distribution key
 	nontrivKey string
 	shrink     func() *replayT // minimise a constructor input whose fields do not come back
+	observed   *outcome        // verdict obtained elsewhere (a fresh process): see fresh.go
 }
 
 func present(c *vlib.Ctx, p presentation) outcome {
-	o := callReader(p.reader, p.data)
+	var o outcome
+	if p.observed != nil {
+		o = *p.observed // what another (fresh) process returned for these bytes
+	} else {
+		o = callReader(p.reader, p.data)
+	}
 	c.Eval()
 	c.Count("outcome:" + o.kind)
 	c.Count("kind:" + p.kind)
@@ -494,6 +507,9 @@ func runReplay(c *vlib.Ctx, r replayT) {
 		fmt.Printf("  signer %s, provider named %s: %s reader returned %s %s\n", signer.ID, prov, r.Reader, o.kind, o.errStr)
 	case "stress":
 		runStress(c, r.Goroutines, time.Duration(r.Millis)*time.Millisecond)
+	case "fresh":
+		data, _ := hex.DecodeString(r.Data)
+		doFresh(c, []freshItem{{name: r.Note, typ: "replay", reader: r.Reader, data: data, expect: r.Expect}})
 	default:
 		panic("unknown replay kind " + r.Kind)
 	}
